@@ -239,7 +239,7 @@ def chk_prefix_collision():
 
 def build(tier, seed):
     quick = tier == "quick"
-    tmo = 120 if quick else 900
+    tmo = 120 if quick else 300
     keys = hostile_keys()
     rnd = random.Random(seed)
     if quick:
